@@ -10,7 +10,7 @@ import math
 import datetime
 import operator as _op
 from .vals import *   # noqa
-from .interp import (Prod, SliceSym, OutOfReach, PyRaise, TypeRef, ExcClass, ExcInst, FuncRef, ClassRef, Obj, NamedTupleClass,
+from .interp import (DDict, Prod, SliceSym, OutOfReach, PyRaise, TypeRef, ExcClass, ExcInst, FuncRef, ClassRef, Obj, NamedTupleClass,
                      BoundMethod, Closure, Builtin, ExtRef, ModRef, TDelta, HostFn, int_term, real_term,
                      real_floor, real_ceil, real_trunc, plain, KIND_TYPE, T_INT, T_FLOAT, T_BOOL, T_STR, T_LIST,
                      T_TUPLE, T_NONE, T_COMPLEX, T_DATETIME, T_DATE, T_XLERROR, T_DICT, T_OBJECT, _Star,
@@ -395,6 +395,12 @@ class Builtins(object):
         tup = tuple(groups.get(i + 1) for i in range(P.ngroups))
         return Obj(NamedTupleClass('Match', []), {'groups': Builtin('groups', lambda it2, a, k: tup)})
 
+    def x_collections_defaultdict(self, it, args, kwargs):
+        from .interp import T_LIST
+        if len(args) == 1 and args[0] is T_LIST:
+            return DDict()
+        raise OutOfReach('defaultdict of %r' % (args,))
+
     def x_traceback_print_exc(self, it, args, kwargs):
         it.ctx.log.append(('stderr', 'traceback.print_exc'))
         return None
@@ -449,6 +455,13 @@ class Builtins(object):
                     return None
                 if _n == 'extend' and isinstance(a[0], (list, tuple)):
                     _l.extend(a[0])
+                    return None
+                if _n == 'pop' and (not a or is_plain_index(a[0])):
+                    if not _l:
+                        raise PyRaise('IndexError', ExcInst('IndexError'))
+                    return _l.pop(*a)
+                if _n == 'clear':
+                    del _l[:]
                     return None
                 raise OutOfReach('list.%s' % _n)
             return Builtin('list.' + name, mut)
